@@ -70,8 +70,11 @@ def run(ctx, f, rep):
                 rm = [ev for i, ev in pathq.calls(p, "remove_file")]
                 named = any(e[0] == "discr" and c == ("eq", 1) and "Option<std::path::PathBuf>" in str(e[2] if len(e) > 2 else "") for (e, c, _, _) in p.conds)
                 unnamed = any(e[0] == "discr" and c == ("eq", 0) and "Option<std::path::PathBuf>" in str(e[2] if len(e) > 2 else "") for (e, c, _, _) in p.conds)
-                if named:
-                    rep.check(bool(rm), "R17.1", "R17.1|%s|unlink-on-exit" % b.path, "every exit of the IPC accept task with a bound path unlinks it (remove_file calls: %d)" % len(rm), b.loc())
+                # every way out: the file is unlinked, or the path option was looked at and found None (an early `return` on a
+                # cancelled stop channel that skips the clean-up leaves the socket file behind after a plain drop)
+                rep.check(bool(rm) or (unnamed and not named), "R17.1", "R17.1|%s|unlink-on-exit" % b.path,
+                          "every exit of the IPC accept task unlinks the socket file, or found that there is no path to unlink (remove_file calls: %d, path option decided: %s)"
+                          % (len(rm), "Some" if named else ("None" if unnamed else "never looked at")), b.loc())
         rep.floor("R17.1", "%s: stop-arm decisions on paths" % b.path.split("::")[2], nstop, 1)
     # ---- R17.2
     def co_of(suffix):
